@@ -201,7 +201,10 @@ func calcDifficultyGrandparent(time uint64, parent, grandparent *types.Header, c
 	bigGrandparentTime := new(big.Int).Set(grandparent.Time)
 	bigParentTime := new(big.Int).Set(parent.Time)
 	if bigParentTime.Cmp(bigGrandparentTime) <= 0 {
-		panic("invalid code")
+		// the parent itself breaks the timestamp rule. Batch verification evaluates the
+		// children of an invalid header too (in a worker goroutine): never panic here,
+		// the chain is rejected at the parent whatever this returns
+		return new(big.Int).Set(parent.Difficulty)
 	}
 	// holds intermediate values to make the algo easier to read & audit
 	x := new(big.Int)
